@@ -1693,3 +1693,61 @@ func checkTrace(method string, tr *trace, st *eventStats) []issue {
 	is = append(is, checkChain(tr)...)
 	return is
 }
+
+// checkReceived: the data the first stage worked on is the request as sent - criteria (id, type, declared range, order)
+// and the values of every known alternative on the declared criteria, split into considered (choseToMake order) and the
+// rest. Every oracle over decorator snapshots presupposes this; it fails when the service hands the library something
+// else than it was sent (a recycled request object, a decoder that keeps earlier fields).
+func checkReceived(d decision) string {
+	if d.dm == nil || d.Trace == nil || !viaService {
+		// library mode hands d.dm itself to MakeDecision: only in service mode is it an independent record of the request
+		return ""
+	}
+	var first *dmpSnap
+	if len(d.Trace.Bias) > 0 {
+		first = &d.Trace.Bias[0].In
+	} else if d.Trace.Eval != nil {
+		first = &d.Trace.Eval.Before
+	}
+	if first == nil {
+		return ""
+	}
+	want := snapCrit(d.dm.Criteria)
+	if len(want) != len(first.Crit) {
+		return fmt.Sprintf("the request declares %d criteria, the first stage received %d", len(want), len(first.Crit))
+	}
+	for i, w := range want {
+		g := first.Crit[i]
+		if w.Id != g.Id || w.Type != g.Type || w.HasRng != g.HasRng || (w.HasRng && (w.Lo != g.Lo || w.Hi != g.Hi)) {
+			return fmt.Sprintf("criterion #%d was sent as %+v and received by the first stage as %+v", i, w, g)
+		}
+	}
+	sent := map[string]map[string]float64{}
+	for _, a := range d.dm.KnownAlternatives {
+		sent[a.Id] = a.Criteria
+	}
+	got := first.all()
+	if len(got) != len(sent) {
+		return fmt.Sprintf("the request knows %d alternatives, the first stage received %d", len(sent), len(got))
+	}
+	for _, a := range got {
+		s, ok := sent[a.Id]
+		if !ok {
+			return fmt.Sprintf("the first stage received alternative '%s' which the request does not know", a.Id)
+		}
+		for _, w := range want {
+			if sv, gv := s[w.Id], a.V[w.Id]; sv != gv {
+				return fmt.Sprintf("value of '%s' on '%s' was sent as %v and received by the first stage as %v", a.Id, w.Id, sv, gv)
+			}
+		}
+	}
+	if len(first.Cons) != len(d.dm.ChoseToMake) {
+		return fmt.Sprintf("choseToMake names %d alternatives, the first stage considers %d", len(d.dm.ChoseToMake), len(first.Cons))
+	}
+	for i, id := range d.dm.ChoseToMake {
+		if first.Cons[i].Id != string(id) {
+			return fmt.Sprintf("considered alternative #%d is '%s', choseToMake has '%s' there", i, first.Cons[i].Id, id)
+		}
+	}
+	return ""
+}
